@@ -286,10 +286,11 @@ Definition check_record (c : nctx) (s : nstate) (name : bytes) (typ : Z) (data :
   _ <-! check_admin c ns;
   Halt tokenID.
 
-(** [getAllRecords ctx name fragments] *)
+(** [getAllRecords ctx name fragments] (fix 8bee9c1: the expiry walk is along
+    the token's own name; [fragments] is no longer used) *)
 Definition get_all_records (c : nctx) (s : nstate) (name : bytes) (frags : list bytes) : outcome (list ent) :=
   tokenID <-! token_id_from_name c s name;
-  _ <-! get_frag_ns c s tokenID frags;
+  _ <-! get_frag_ns c s tokenID [];
   Halt (rec_entries (records s) (hash tokenID) (hash name)).
 
 (** [resolve]; [fuel] = redirect + 1 (redirect < 0 panics). *)
@@ -443,6 +444,11 @@ Definition nexec (c : nctx) (s : nstate) (o : nop) : outcome (nstate * val * lis
       match records s !! (hash tokenID, hash name, tb, ib) with
       | None => Fault
       | Some _ =>
+          (* fix 63f40b8: no other record of the name and type may hold [data] *)
+          let es := find_by_type (records s) (hash tokenID) (hash name) tb in
+          _ <-! oassert (negb (existsb (fun e : ent =>
+                     negb (r_id (snd e) =? id) && bytes_eqb (r_name (snd e)) name &&
+                     (r_type (snd e) =? typ) && bytes_eqb (r_data (snd e)) data) es));
           let s1 := store_record s tokenID name typ tb ib id data in
           s2 <-! update_soa_serial c s1 tokenID;
           Halt (s2, VNull, [])
@@ -515,7 +521,7 @@ Definition nexec (c : nctx) (s : nstate) (o : nop) : outcome (nstate * val * lis
       let frags := split_dot name in
       _ <-! oassert (negb (length frags =? 1)%nat);
       tokenID <-! token_id_from_name c s name;
-      _ <-! get_frag_ns c s tokenID frags;
+      _ <-! get_frag_ns c s tokenID [];
       tb <-! to_byte typ;
       let es := find_by_type (records s) (hash tokenID) (hash name) tb in
       Halt (s, VList (map (fun e : ent => VBytes (r_data (snd e)))
